@@ -474,6 +474,7 @@ def flight_stream(ctx, J, bases, n_random):
             for tag, d in table[k]:
                 if d is not None:
                     combos.append({k: tag})
+        directed = len(combos)          # one deviation per message: never behind the budget
         for _ in range(n_random):
             c = {}
             for i, k in keys:
@@ -481,9 +482,10 @@ def flight_stream(ctx, J, bases, n_random):
                     c[k] = rng.choice(table[k])[0]
             if c:
                 combos.append(c)
-        for combo in combos:
-            if ctx.out_of_time(0.6):
-                return
+        for ci, combo in enumerate(combos):
+            if ci >= directed and ctx.out_of_time(0.7):
+                ctx.count("cut-by-budget:flight-random-combinations")
+                break
             muts, items, skip = {}, [], False
             for i, k in keys:
                 tag = combo.get(k, "ok")
@@ -652,8 +654,9 @@ def hrr_stream(ctx, J, n):
     lc = ctx.lean()
     rng = ctx.rng
     msgs = [c08.norm_msg(m) for m in HRR_MESSAGES]
-    for _ in range(n):
-        if ctx.out_of_time(0.65):
+    for hi in range(n):
+        if hi >= 150 and ctx.out_of_time(0.65):
+            ctx.count("cut-by-budget:hrr-random")
             return
         f1, ks1, sg1, psk_ke, second = hrr_case(rng)
         L, info = run_hrr_case(f1, second)
@@ -800,8 +803,6 @@ def early_data_stream(ctx, J, thorough, only=None):
     if only is not None:
         cases = [only]
     for max_early, known, sizes in cases:
-        if ctx.out_of_time(0.7):
-            return
         L, info = run_early_data_case(max_early, known, sizes, rb)
         v = L.server
         replay = {"stage": "early-data", "max_early": max_early, "known_psk": known, "sizes": sizes if len(set(sizes)) > 1 else
@@ -1038,8 +1039,9 @@ def keyed_peer_stream(ctx, J, thorough, only=None):
                 cnames = [n for i, n in enumerate(keep) if n.startswith("etm-") or (i + pair + rot) % 4 == 0]
             pair += 1
             for cname in cnames:
-                if ctx.out_of_time(0.75):
-                    return
+                if not cname.startswith("etm-") and ctx.out_of_time(0.75):
+                    ctx.count("cut-by-budget:keyed-peer-other-records")
+                    continue
                 L = established()
                 if L is None:
                     break
@@ -1222,8 +1224,6 @@ def certificate_stream(ctx, J, bases, thorough, only=None):
             continue
         victim = "server" if side == "client" else "client"
         for vi, (vname, spki) in enumerate(variants):
-            if ctx.out_of_time(0.8):
-                return
             close_socket = zlib.crc32((sname + vname).encode()) % 2 == 0
             d = {"op": "cert_spki", "spki": spki.hex(), "label": "certificate", "cls": "cert-spki-" + vname,
                  "pver": list(base.ctxm["version"])}
